@@ -50,3 +50,633 @@ Proof.
   intro H. apply bit_binop_ok in H. destruct H as (_ & _ & Hb & Hi). split; [exact Hb|].
   intro i. rewrite Hi, In_usort. apply In_zxor.
 Qed.
+
+(* ============================================================================================== *)
+(* generic list / set helpers                                                                      *)
+Lemma existsb_ext_In {A} (p : A -> bool) l1 l2 : (forall x, In x l1 <-> In x l2) -> existsb p l1 = existsb p l2.
+Proof.
+  intro H. destruct (existsb p l1) eqn:E1; destruct (existsb p l2) eqn:E2; try reflexivity.
+  - apply existsb_exists in E1. destruct E1 as [x [Hx Px]]. apply H in Hx.
+    assert (existsb p l2 = true) by (apply existsb_exists; eauto). congruence.
+  - apply existsb_exists in E2. destruct E2 as [x [Hx Px]]. apply H in Hx.
+    assert (existsb p l1 = true) by (apply existsb_exists; eauto). congruence.
+Qed.
+
+Lemma existsb_false_Forall bits l : existsb (fun i => bits <=? i) l = false <-> Forall (fun i => i < bits) l.
+Proof.
+  induction l as [|x l IH]; simpl.
+  - split; [constructor | reflexivity].
+  - rewrite orb_false_iff, IH, Z.leb_gt. split.
+    + intros [H1 H2]. constructor; assumption.
+    + intro H. inversion H; subst. split; assumption.
+Qed.
+
+Lemma forallb_zmem_self l : forallb (fun x => zmem x l) l = true.
+Proof. apply forallb_forall. intros x Hx. apply zmem_In. exact Hx. Qed.
+
+Lemma usort_ext l1 l2 : (forall x, In x l1 <-> In x l2) -> usort l1 = usort l2.
+Proof.
+  intro H. apply ssorted_ext; try apply ssorted_usort. intro x. rewrite !In_usort. apply H.
+Qed.
+
+Lemma mk_bit_ext l1 l2 bits lv nm : (forall x, In x l1 <-> In x l2) -> mk_bit l1 bits lv nm = mk_bit l2 bits lv nm.
+Proof.
+  intro H. unfold mk_bit. rewrite (existsb_ext_In _ l1 l2 H), (usort_ext l1 l2 H). reflexivity.
+Qed.
+
+(* ============================================================================================== *)
+(* set operators: + is |, commutativity (what the reflected forms rely on), totality               *)
+Lemma add_bit_is_or a b : fp_bit_add a b = fp_or a b.
+Proof. reflexivity. Qed.
+
+Lemma fp_add_bit_is_or a b : fkind a = KBit -> fp_add a b = fp_or a b.
+Proof. intro H. unfold fp_add. rewrite H. reflexivity. Qed.
+
+Lemma fp_sub_bit_is_diff a b : fkind a = KBit -> fp_sub a b = fp_bit_sub a b.
+Proof. intro H. unfold fp_sub. rewrite H. reflexivity. Qed.
+
+Lemma bit_binop_comm op a b :
+  (forall x, In x (op (fidx a) (fidx b)) <-> In x (op (fidx b) (fidx a))) -> bit_binop op a b = bit_binop op b a.
+Proof.
+  intro H. unfold bit_binop. rewrite (Z.eqb_sym (fbits b)).
+  destruct (fbits a =? fbits b) eqn:E; simpl; [|reflexivity].
+  apply Z.eqb_eq in E. rewrite <- E. apply mk_bit_ext. exact H.
+Qed.
+
+Lemma or_comm a b : fp_or b a = fp_or a b.
+Proof. apply bit_binop_comm. intro x. rewrite !In_zunion. tauto. Qed.
+Lemma and_comm a b : fp_and b a = fp_and a b.
+Proof. apply bit_binop_comm. intro x. rewrite !In_zinter. tauto. Qed.
+Lemma xor_comm a b : fp_xor b a = fp_xor a b.
+Proof. apply bit_binop_comm. intro x. rewrite !In_zxor. tauto. Qed.
+Lemma bit_add_comm a b : fp_bit_add b a = fp_bit_add a b.
+Proof. apply or_comm. Qed.
+
+(* well-formed: every stored position is below the length (what the constructor enforces; negative positions
+   are not rejected by the code, so they are not excluded here either) *)
+Definition wf_idx (a : fp) : Prop := Forall (fun i => i < fbits a) (fidx a).
+
+Lemma bit_binop_total op a b :
+  (forall x, In x (op (fidx a) (fidx b)) -> In x (fidx a) \/ In x (fidx b)) ->
+  wf_idx a -> wf_idx b -> fbits a = fbits b ->
+  bit_binop op a b = Ok (mkfp KBit (fbits a) minus1 (usort (op (fidx a) (fidx b))) [] None).
+Proof.
+  intros Hop Ha Hb E. unfold bit_binop. rewrite (proj2 (Z.eqb_eq _ _) E). simpl. unfold mk_bit.
+  assert (X : existsb (fun i => fbits a <=? i) (op (fidx a) (fidx b)) = false).
+  { apply existsb_false_Forall. apply Forall_forall. intros x Hx. unfold wf_idx in *. rewrite Forall_forall in Ha, Hb.
+    destruct (Hop x Hx) as [H|H]; [apply Ha; exact H | rewrite E; apply Hb; exact H]. }
+  rewrite X. reflexivity.
+Qed.
+
+Lemma set_ops_total a b : wf_idx a -> wf_idx b -> fbits a = fbits b ->
+  (exists r, fp_or a b = Ok r) /\ (exists r, fp_bit_add a b = Ok r) /\ (exists r, fp_and a b = Ok r) /\
+  (exists r, fp_bit_sub a b = Ok r) /\ (exists r, fp_xor a b = Ok r).
+Proof.
+  intros Ha Hb E. repeat split; eexists; apply bit_binop_total; try assumption; intro x.
+  - rewrite In_zunion. tauto.
+  - rewrite In_zunion. tauto.
+  - rewrite In_zinter. tauto.
+  - rewrite In_zdiff. tauto.
+  - rewrite In_zxor. tauto.
+Qed.
+
+(* the result of a set operator on well-formed operands is again well-formed and strictly increasing *)
+Lemma bit_binop_wf op a b r : bit_binop op a b = Ok r -> wf_idx r /\ ssorted (fidx r).
+Proof.
+  unfold bit_binop. destruct (fbits a =? fbits b); simpl; [|discriminate]. unfold mk_bit.
+  destruct (existsb _ _) eqn:X; [discriminate|]. intro H. inversion H; subst; clear H. unfold wf_idx; simpl. split.
+  - apply existsb_false_Forall in X. rewrite Forall_forall in *. intros x Hx. apply (proj1 (In_usort _ _)) in Hx. apply (X x Hx).
+  - apply ssorted_usort.
+Qed.
+
+(* ============================================================================================== *)
+(* count maps                                                                                       *)
+Lemma ckeys_cbuild ks g : ckeys (cbuild ks g) = ks.
+Proof. unfold ckeys, cbuild. rewrite map_map. simpl. apply map_id. Qed.
+
+Lemma cget_cbuild ks g i : cget (cbuild ks g) i = if zmem i ks then g i else 0%Q.
+Proof.
+  induction ks as [|k ks IH]; simpl; [reflexivity|].
+  destruct (i =? k) eqn:E; simpl; [apply Z.eqb_eq in E; subst; reflexivity | exact IH].
+Qed.
+
+Lemma cget_absent m i : ~ In i (ckeys m) -> cget m i = 0%Q.
+Proof.
+  induction m as [|[k v] m IH]; simpl; intro H; [reflexivity|].
+  destruct (i =? k) eqn:E.
+  - apply Z.eqb_eq in E. exfalso. apply H. left. symmetry. exact E.
+  - apply IH. tauto.
+Qed.
+
+Lemma cbuild_ext ks g h : (forall i, In i ks -> g i = h i) -> cbuild ks g = cbuild ks h.
+Proof. intro H. unfold cbuild. apply map_ext_in. intros i Hi. rewrite (H i Hi). reflexivity. Qed.
+
+Lemma qtrunc_inject_Z n : qtrunc (inject_Z n) = inject_Z n.
+Proof. unfold qtrunc. simpl. rewrite Z.quot_1_r. reflexivity. Qed.
+
+Lemma cast_inject_Z k n : cast_value k (inject_Z n) = inject_Z n.
+Proof. destruct k; simpl; try apply qtrunc_inject_Z. reflexivity. Qed.
+
+Lemma Qplus_inject_Z n m : (inject_Z n + inject_Z m)%Q = inject_Z (n + m).
+Proof. unfold Qplus, inject_Z. simpl. rewrite !Z.mul_1_r. reflexivity. Qed.
+
+Lemma Qminus_inject_Z n m : (inject_Z n - inject_Z m)%Q = inject_Z (n - m).
+Proof. unfold Qminus, Qplus, Qopp, inject_Z. simpl. rewrite !Z.mul_1_r. reflexivity. Qed.
+
+(* the counts constructor applied to a dict built over a strictly increasing key list *)
+Lemma mk_count_cbuild k ks g bits lv nm : ssorted ks ->
+  mk_count k (ckeys (cbuild ks g)) (cbuild ks g) bits lv nm =
+  if existsb (fun i => bits <=? i) ks then Raises EBits
+  else Ok (mkfp k bits lv ks (cbuild ks (fun i => cast_value k (g i))) nm).
+Proof.
+  intro Hs. unfold mk_count. rewrite ckeys_cbuild, (usort_id ks Hs).
+  destruct (existsb _ ks); [reflexivity|]. rewrite forallb_zmem_self. simpl.
+  f_equal. f_equal. apply cbuild_ext. intros i Hi. rewrite cget_cbuild.
+  rewrite (proj2 (zmem_In i ks) Hi). reflexivity.
+Qed.
+
+(* ============================================================================================== *)
+(* count + and -                                                                                    *)
+Lemma count_binop_inv f a b r : count_binop f a b = Ok r ->
+  is_count_like a = true /\ is_count_like b = true /\ fbits a = fbits b.
+Proof.
+  unfold count_binop. destruct (is_count_like a); simpl; [|discriminate].
+  destruct (is_count_like b); simpl; [|discriminate].
+  destruct (fbits a =? fbits b) eqn:E; simpl; [|discriminate]. apply Z.eqb_eq in E. auto.
+Qed.
+
+Lemma count_binop_eq f a b : is_count_like a = true -> is_count_like b = true -> fbits a = fbits b ->
+  count_binop f a b =
+  let ks := zunion (ckeys (fcnt a)) (ckeys (fcnt b)) in
+  if existsb (fun i => fbits a <=? i) ks then Raises EBits
+  else Ok (mkfp (result_kind a b) (fbits a) (merged_level a b) ks
+                (cbuild ks (fun i => cast_value (result_kind a b) (f (cget (fcnt a) i) (cget (fcnt b) i)))) None).
+Proof.
+  intros Ha Hb E. unfold count_binop. rewrite Ha, Hb, (proj2 (Z.eqb_eq _ _) E). simpl.
+  unfold cmap_pointwise. apply mk_count_cbuild. apply ssorted_zunion.
+Qed.
+
+(* pointwise specification for any binary function with cast (f 0 0) = 0 *)
+Lemma count_binop_spec f a b r :
+  (forall k, cast_value k (f 0%Q 0%Q) = 0%Q) ->
+  count_binop f a b = Ok r ->
+  fbits r = fbits a /\ fkind r = result_kind a b /\ flevel r = merged_level a b /\ fname r = None /\
+  fidx r = zunion (ckeys (fcnt a)) (ckeys (fcnt b)) /\ ckeys (fcnt r) = fidx r /\
+  (forall i, In i (fidx r) <-> In i (ckeys (fcnt a)) \/ In i (ckeys (fcnt b))) /\
+  (forall i, cget (fcnt r) i = cast_value (fkind r) (f (cget (fcnt a) i) (cget (fcnt b) i))).
+Proof.
+  intros Hf H. destruct (count_binop_inv _ _ _ _ H) as (Ha & Hb & E).
+  rewrite (count_binop_eq f a b Ha Hb E) in H. cbv zeta in H.
+  destruct (existsb _ _); [discriminate|]. inversion H; subst; clear H. simpl.
+  repeat split; try reflexivity.
+  - apply ckeys_cbuild.
+  - apply In_zunion.
+  - apply In_zunion.
+  - intro i. rewrite cget_cbuild. destruct (zmem i _) eqn:M; [reflexivity|].
+    apply zmem_false in M. rewrite In_zunion in M.
+    rewrite (cget_absent (fcnt a) i), (cget_absent (fcnt b) i) by tauto. symmetry. apply Hf.
+Qed.
+
+Lemma count_add_spec a b r : count_binop Qplus a b = Ok r ->
+  fbits r = fbits a /\ fkind r = result_kind a b /\ flevel r = merged_level a b /\ fname r = None /\
+  fidx r = zunion (ckeys (fcnt a)) (ckeys (fcnt b)) /\ ckeys (fcnt r) = fidx r /\
+  (forall i, In i (fidx r) <-> In i (ckeys (fcnt a)) \/ In i (ckeys (fcnt b))) /\
+  (forall i, cget (fcnt r) i = cast_value (fkind r) (cget (fcnt a) i + cget (fcnt b) i)%Q).
+Proof. apply count_binop_spec. intros [| |]; reflexivity. Qed.
+
+Lemma count_sub_spec a b r : count_binop Qminus a b = Ok r ->
+  fbits r = fbits a /\ fkind r = result_kind a b /\ flevel r = merged_level a b /\ fname r = None /\
+  fidx r = zunion (ckeys (fcnt a)) (ckeys (fcnt b)) /\ ckeys (fcnt r) = fidx r /\
+  (forall i, In i (fidx r) <-> In i (ckeys (fcnt a)) \/ In i (ckeys (fcnt b))) /\
+  (forall i, cget (fcnt r) i = cast_value (fkind r) (cget (fcnt a) i - cget (fcnt b) i)%Q).
+Proof. apply count_binop_spec. intros [| |]; reflexivity. Qed.
+
+(* integer-valued counts: no truncation takes place, the result is the integer sum / difference *)
+Lemma count_add_int a b r i n m : count_binop Qplus a b = Ok r ->
+  cget (fcnt a) i = inject_Z n -> cget (fcnt b) i = inject_Z m -> cget (fcnt r) i = inject_Z (n + m).
+Proof.
+  intros H Ha Hb. destruct (count_add_spec a b r H) as (_ & _ & _ & _ & _ & _ & _ & Hp).
+  rewrite Hp, Ha, Hb, Qplus_inject_Z. apply cast_inject_Z.
+Qed.
+
+Lemma count_sub_int a b r i n m : count_binop Qminus a b = Ok r ->
+  cget (fcnt a) i = inject_Z n -> cget (fcnt b) i = inject_Z m -> cget (fcnt r) i = inject_Z (n - m).
+Proof.
+  intros H Ha Hb. destruct (count_sub_spec a b r H) as (_ & _ & _ & _ & _ & _ & _ & Hp).
+  rewrite Hp, Ha, Hb, Qminus_inject_Z. apply cast_inject_Z.
+Qed.
+
+(* totality and rejection *)
+Definition wf_cnt (a : fp) : Prop := Forall (fun i => i < fbits a) (ckeys (fcnt a)).
+
+Lemma count_binop_total f a b : is_count_like a = true -> is_count_like b = true -> fbits a = fbits b ->
+  wf_cnt a -> wf_cnt b -> exists r, count_binop f a b = Ok r.
+Proof.
+  intros Ha Hb E Wa Wb. rewrite (count_binop_eq f a b Ha Hb E). cbv zeta.
+  assert (X : existsb (fun i => fbits a <=? i) (zunion (ckeys (fcnt a)) (ckeys (fcnt b))) = false).
+  { apply existsb_false_Forall. apply Forall_forall. intros x Hx. apply In_zunion in Hx.
+    unfold wf_cnt in *. rewrite Forall_forall in Wa, Wb. destruct Hx as [Hx|Hx]; [apply Wa | rewrite E; apply Wb]; exact Hx. }
+  rewrite X. eexists. reflexivity.
+Qed.
+
+Lemma count_bits_mismatch_rejected f a b : is_count_like a = true -> is_count_like b = true ->
+  fbits a <> fbits b -> count_binop f a b = Raises EBits.
+Proof.
+  intros Ha Hb E. unfold count_binop. rewrite Ha, Hb. simpl. apply Z.eqb_neq in E. rewrite E. reflexivity.
+Qed.
+
+Lemma count_with_bit_rejected f a b : is_count_like a = true -> fkind b = KBit -> count_binop f a b = Raises EInvalidFp.
+Proof. intros Ha Hb. unfold count_binop, is_count_like in *. rewrite Hb. destruct (fkind a); try discriminate; reflexivity. Qed.
+
+Lemma fp_add_count a b : is_count_like a = true -> fp_add a b = count_binop Qplus a b.
+Proof. unfold fp_add, is_count_like. destruct (fkind a); [discriminate| |]; reflexivity. Qed.
+Lemma fp_sub_count a b : is_count_like a = true -> fp_sub a b = count_binop Qminus a b.
+Proof. unfold fp_sub, is_count_like. destruct (fkind a); [discriminate| |]; reflexivity. Qed.
+
+(* ============================================================================================== *)
+(* scalar * / //                                                                                    *)
+Lemma ckeys_map_val (h : Q -> Q) (m : cmap) : ckeys (map (fun kv => (fst kv, h (snd kv))) m) = ckeys m.
+Proof. unfold ckeys. rewrite map_map. reflexivity. Qed.
+
+Lemma cget_map_val (h : Q -> Q) (m : cmap) i :
+  cget (map (fun kv => (fst kv, h (snd kv))) m) i = if zmem i (ckeys m) then h (cget m i) else 0%Q.
+Proof.
+  induction m as [|[k v] m IH]; simpl; [reflexivity|].
+  destruct (i =? k); simpl; [reflexivity | exact IH].
+Qed.
+
+Lemma from_fingerprint_count_ok k a cf : k <> KBit -> from_fingerprint k a = Ok cf ->
+  fkind cf = k /\ fbits cf = fbits a /\ flevel cf = flevel a /\ fname cf = fname a /\
+  fidx cf = usort (ckeys (filter (fun kv => negb (Qle_bool (snd kv) 0)) (counts_of a))).
+Proof.
+  intros Hk. unfold from_fingerprint. destruct k; [congruence| |]; unfold mk_from_counts;
+  destruct (existsb _ _); try discriminate; intro H; inversion H; subst; simpl; repeat split.
+Qed.
+
+(* shape of the three scalar results *)
+Lemma scalar_shape k a cf c :
+  from_fingerprint k a = Ok cf -> k <> KBit ->
+  let r := set_counts k cf c in
+  fkind r = k /\ fbits r = fbits a /\ flevel r = flevel a /\ fname r = fname a /\
+  ckeys (fcnt r) = ckeys c /\ forall i, cget (fcnt r) i = if zmem i (ckeys c) then cast_value k (cget c i) else 0%Q.
+Proof.
+  intros H Hk r. destruct (from_fingerprint_count_ok k a cf Hk H) as (K & B & L & N & _).
+  unfold r, set_counts; simpl. repeat split; try assumption.
+  - apply ckeys_cbuild.
+  - intro i. apply cget_cbuild.
+Qed.
+
+Lemma is_count_like_not_bit a : is_count_like a = true -> fkind a <> KBit.
+Proof. unfold is_count_like. destruct (fkind a); congruence. Qed.
+
+Lemma mul_spec a x r : is_count_like a = true -> fp_mul a x = Ok r ->
+  fkind r = fkind a /\ fbits r = fbits a /\ flevel r = flevel a /\ fname r = fname a /\
+  ckeys (fcnt r) = ckeys (fcnt a) /\
+  (forall i, In i (ckeys (fcnt a)) -> cget (fcnt r) i = cast_value (fkind a) (cget (fcnt a) i * x)%Q) /\
+  (forall i, cget (fcnt r) i == cast_value (fkind a) (cget (fcnt a) i * x)%Q).
+Proof.
+  intros Hc. unfold fp_mul. destruct (from_fingerprint (fkind a) a) as [cf|e] eqn:F; simpl; [|discriminate].
+  intro H. inversion H; subst; clear H.
+  destruct (scalar_shape (fkind a) a cf (map (fun kv => (fst kv, (snd kv * x)%Q)) (fcnt a)) F (is_count_like_not_bit a Hc))
+    as (K & B & L & N & Ks & P).
+  rewrite (ckeys_map_val (fun v => (v * x)%Q)) in Ks, P.
+  repeat split; try assumption.
+  - intros i Hi. rewrite P, (cget_map_val (fun v => (v * x)%Q)). rewrite (proj2 (zmem_In _ _) Hi). reflexivity.
+  - intro i. rewrite P, (cget_map_val (fun v => (v * x)%Q)). destruct (zmem i (ckeys (fcnt a))) eqn:M; [reflexivity|].
+    apply zmem_false in M. rewrite (cget_absent _ _ M).
+    destruct (fkind a); simpl; destruct x; reflexivity.
+Qed.
+
+Lemma div_spec a x r : is_count_like a = true -> fp_div a x = Ok r ->
+  ~ x == 0 /\ fkind r = KFloat /\ fbits r = fbits a /\ flevel r = flevel a /\ fname r = fname a /\
+  ckeys (fcnt r) = ckeys (fcnt a) /\
+  (forall i, In i (ckeys (fcnt a)) -> cget (fcnt r) i = (cget (fcnt a) i / x)%Q) /\
+  (forall i, cget (fcnt r) i == (cget (fcnt a) i / x)%Q).
+Proof.
+  intros Hc. unfold fp_div. destruct (Qeq_bool x 0) eqn:X; [discriminate|].
+  destruct (from_fingerprint KFloat a) as [cf|e] eqn:F; simpl; [|discriminate].
+  intro H. inversion H; subst; clear H.
+  assert (NB : KFloat <> KBit) by discriminate.
+  destruct (scalar_shape KFloat a cf (map (fun kv => (fst kv, (snd kv / x)%Q)) (fcnt a)) F NB) as (K & B & L & N & Ks & P).
+  rewrite (ckeys_map_val (fun v => (v / x)%Q)) in Ks, P.
+  split; [apply Qeq_bool_neq; exact X|]. repeat split; try assumption.
+  - intros i Hi. rewrite P, (cget_map_val (fun v => (v / x)%Q)). rewrite (proj2 (zmem_In _ _) Hi). reflexivity.
+  - intro i. rewrite P, (cget_map_val (fun v => (v / x)%Q)). destruct (zmem i (ckeys (fcnt a))) eqn:M; [reflexivity|].
+    apply zmem_false in M. rewrite (cget_absent _ _ M). simpl. unfold Qdiv. rewrite Qmult_0_l. reflexivity.
+Qed.
+
+(* ---- floor division: positions whose count is below the divisor are dropped ---------------------- *)
+Lemma cget_In_first m i : In i (ckeys m) -> In (i, cget m i) m.
+Proof.
+  induction m as [|[k v] m IH]; simpl; [tauto|]. intro H.
+  destruct (i =? k) eqn:E.
+  - apply Z.eqb_eq in E. subst. left. reflexivity.
+  - right. apply IH. destruct H as [H|H]; [apply Z.eqb_neq in E; congruence | exact H].
+Qed.
+
+Lemma cget_NoDup_In m i v : NoDup (ckeys m) -> In (i, v) m -> cget m i = v.
+Proof.
+  induction m as [|[k w] m IH]; simpl; intros ND H1; [tauto|]. inversion ND as [|? ? Hn ND']; subst.
+  destruct H1 as [H1|H1].
+  - inversion H1; subst. rewrite Z.eqb_refl. reflexivity.
+  - destruct (i =? k) eqn:E; [|apply IH; assumption].
+    apply Z.eqb_eq in E. subst. exfalso. apply Hn. unfold ckeys. apply in_map_iff. exists (k, v). tauto.
+Qed.
+
+Lemma ckeys_filter_sub (p : Z * Q -> bool) m i : In i (ckeys (filter p m)) -> In i (ckeys m).
+Proof.
+  unfold ckeys. rewrite !in_map_iff. intros [kv [E H]]. apply filter_In in H. exists kv. tauto.
+Qed.
+
+Lemma cget_filter_val (q : Q -> bool) m i : NoDup (ckeys m) ->
+  cget (filter (fun kv => q (snd kv)) m) i = if zmem i (ckeys m) && q (cget m i) then cget m i else 0%Q.
+Proof.
+  induction m as [|[k v] m IH]; simpl; intro ND; [reflexivity|].
+  inversion ND as [|? ? Hk ND']; subst. specialize (IH ND').
+  destruct (i =? k) eqn:E; simpl.
+  - apply Z.eqb_eq in E. subst i. destruct (q v) eqn:Qv; simpl.
+    + rewrite Z.eqb_refl. reflexivity.
+    + apply cget_absent. intro H. apply Hk. eapply ckeys_filter_sub. exact H.
+  - destruct (q v); simpl; [rewrite E|]; exact IH.
+Qed.
+
+Lemma In_ckeys_filter_val (q : Q -> bool) m i :
+  In i (ckeys (filter (fun kv => q (snd kv)) m)) <-> exists v, In (i, v) m /\ q v = true.
+Proof.
+  unfold ckeys. rewrite in_map_iff. split.
+  - intros [[k v] [E H]]. simpl in E. subst k. apply filter_In in H. simpl in H. exists v. exact H.
+  - intros [v [H Q]]. exists (i, v). split; [reflexivity|]. apply filter_In. simpl. tauto.
+Qed.
+
+Lemma floordiv_spec a x r : is_count_like a = true -> fp_floordiv a x = Ok r ->
+  ~ x == 0 /\ fkind r = KCount /\ fbits r = fbits a /\ flevel r = flevel a /\ fname r = fname a /\
+  (* kept positions: exactly those holding a count v with x <= v; indices and count keys agree *)
+  (forall i, In i (fidx r) <-> exists v, In (i, v) (fcnt a) /\ (x <= v)%Q) /\
+  (forall i, In i (ckeys (fcnt r)) <-> In i (fidx r)) /\ ssorted (fidx r) /\
+  (* values: truncated quotient where kept, 0 (absent) where dropped *)
+  (NoDup (ckeys (fcnt a)) -> forall i,
+     cget (fcnt r) i = if zmem i (ckeys (fcnt a)) && Qle_bool x (cget (fcnt a) i)
+                       then qtrunc (cget (fcnt a) i / x)%Q else 0%Q).
+Proof.
+  intros Hc. unfold fp_floordiv. destruct (Qeq_bool x 0) eqn:X; [discriminate|].
+  destruct (from_fingerprint KCount a) as [cf|e] eqn:F; simpl; [|discriminate].
+  intro H. inversion H; subst; clear H. simpl.
+  assert (NB : KCount <> KBit) by discriminate.
+  destruct (from_fingerprint_count_ok KCount a cf NB F) as (K & B & L & N & _).
+  set (kept := filter (fun kv => Qle_bool x (snd kv)) (fcnt a)).
+  rewrite !ckeys_cbuild, !(ckeys_map_val (fun v => (v / x)%Q)).
+  split; [apply Qeq_bool_neq; exact X|]. repeat split; try assumption.
+  - rewrite In_usort. intro Hi. apply (In_ckeys_filter_val (Qle_bool x)) in Hi.
+    destruct Hi as [v [H1 H2]]. exists v. split; [exact H1 | apply Qle_bool_iff; exact H2].
+  - intros [v [H1 H2]]. rewrite In_usort. apply (In_ckeys_filter_val (Qle_bool x)). exists v.
+    split; [exact H1 | apply Qle_bool_iff; exact H2].
+  - rewrite In_usort. tauto.
+  - rewrite In_usort. tauto.
+  - apply ssorted_usort.
+  - intros ND i. rewrite cget_cbuild, (cget_map_val (fun v => (v / x)%Q)).
+    destruct (zmem i (ckeys kept)) eqn:M.
+    + apply zmem_In in M. apply (In_ckeys_filter_val (Qle_bool x)) in M. destruct M as [v [H1 H2]].
+      unfold kept. rewrite (cget_filter_val (Qle_bool x) (fcnt a) i ND).
+      assert (Hk : In i (ckeys (fcnt a))). { unfold ckeys. apply in_map_iff. exists (i, v). tauto. }
+      assert (Hv : cget (fcnt a) i = v) by (apply cget_NoDup_In; assumption).
+      rewrite (proj2 (zmem_In _ _) Hk), Hv, H2. reflexivity.
+    + apply zmem_false in M. unfold kept in M.
+      destruct (zmem i (ckeys (fcnt a)) && Qle_bool x (cget (fcnt a) i)) eqn:C; [|reflexivity].
+      exfalso. apply M. apply andb_true_iff in C. destruct C as [C1 C2]. apply zmem_In in C1.
+      apply (In_ckeys_filter_val (Qle_bool x)). exists (cget (fcnt a) i). split; [apply cget_In_first; exact C1 | exact C2].
+Qed.
+
+(* the two readings of "dropped iff v < x" for a dict with distinct keys *)
+Lemma floordiv_kept a x r i : is_count_like a = true -> NoDup (ckeys (fcnt a)) -> fp_floordiv a x = Ok r ->
+  In i (ckeys (fcnt a)) -> (x <= cget (fcnt a) i)%Q ->
+  In i (fidx r) /\ cget (fcnt r) i = qtrunc (cget (fcnt a) i / x)%Q.
+Proof.
+  intros Hc ND H Hi Hx. destruct (floordiv_spec a x r Hc H) as (_ & _ & _ & _ & _ & Hk & _ & _ & Hv). split.
+  - apply Hk. exists (cget (fcnt a) i). split; [apply cget_In_first; exact Hi | exact Hx].
+  - rewrite (Hv ND i), (proj2 (zmem_In _ _) Hi), (proj2 (Qle_bool_iff _ _) Hx). reflexivity.
+Qed.
+
+Lemma floordiv_dropped a x r i : is_count_like a = true -> NoDup (ckeys (fcnt a)) -> fp_floordiv a x = Ok r ->
+  (cget (fcnt a) i < x)%Q -> ~ In i (fidx r) /\ cget (fcnt r) i = 0%Q.
+Proof.
+  intros Hc ND H Hx. destruct (floordiv_spec a x r Hc H) as (_ & _ & _ & _ & _ & Hk & _ & _ & Hv).
+  assert (Q : Qle_bool x (cget (fcnt a) i) = false).
+  { destruct (Qle_bool x (cget (fcnt a) i)) eqn:E; [|reflexivity]. apply Qle_bool_iff in E.
+    exfalso. apply (Qlt_not_le _ _ Hx). exact E. }
+  split.
+  - intro Hi. apply Hk in Hi. destruct Hi as [v [H1 H2]].
+    assert (Hin : In i (ckeys (fcnt a))). { unfold ckeys. apply in_map_iff. exists (i, v). tauto. }
+    assert (cget (fcnt a) i = v) by (apply cget_NoDup_In; assumption).
+    subst v. apply (Qlt_not_le _ _ Hx). exact H2.
+  - rewrite (Hv ND i), Q, andb_false_r. reflexivity.
+Qed.
+
+(* ============================================================================================== *)
+(* batch sum and mean                                                                               *)
+(* the plain position-wise sum over the batch *)
+Definition csum (l : list fp) (i : Z) : Q := qsum (map (fun a => cget (counts_of a) i) l).
+
+(* wsum is literally the sum of count * weight over the paired members *)
+Lemma wsum_combine l w i :
+  wsum l w i = qsum (map (fun aw => (cget (counts_of (fst aw)) i * snd aw)%Q) (combine l w)).
+Proof.
+  revert w. induction l as [|a l IH]; intros [|x w]; simpl; try reflexivity. rewrite IH. reflexivity.
+Qed.
+
+Lemma wsum_ones l i : wsum l (ones (length l)) i == csum l i.
+Proof.
+  unfold csum. induction l as [|a l IH]; simpl; [reflexivity|]. unfold ones in IH. rewrite IH, Qmult_1_r. reflexivity.
+Qed.
+
+Lemma In_all_keys l i : In i (all_keys l) <-> exists a, In a l /\ In i (ckeys (counts_of a)).
+Proof.
+  unfold all_keys. rewrite In_usort, in_concat. split.
+  - intros [ks [H1 H2]]. apply in_map_iff in H1. destruct H1 as [a [E Ha]]. subst. eauto.
+  - intros [a [Ha Hi]]. exists (ckeys (counts_of a)). split; [apply in_map_iff; eauto | exact Hi].
+Qed.
+
+Lemma wsum_ones_absent l i : ~ In i (all_keys l) -> wsum l (ones (length l)) i = 0%Q.
+Proof.
+  rewrite In_all_keys. induction l as [|a l IH]; simpl; intro H; [reflexivity|].
+  unfold ones in IH. rewrite IH, (cget_absent (counts_of a) i).
+  - reflexivity.
+  - intro Hi. apply H. exists a. auto.
+  - intros [b [Hb Hi]]. apply H. exists b. auto.
+Qed.
+
+Lemma wsum_absent l w i : ~ In i (all_keys l) -> wsum l w i == 0.
+Proof.
+  rewrite In_all_keys. revert w. induction l as [|a l IH]; intros [|x w] H; simpl; try reflexivity.
+  rewrite IH, (cget_absent (counts_of a) i).
+  - rewrite Qmult_0_l. reflexivity.
+  - intro Hi. apply H. exists a. simpl. auto.
+  - intros [b [Hb Hi]]. apply H. exists b. simpl. auto.
+Qed.
+
+Definition batch_kind (l : list fp) : kind := if any_float l then KFloat else KCount.
+
+Lemma batch_add_unweighted_eq a0 l' : let l := a0 :: l' in
+  batch_add l None =
+  if existsb (fun i => fbits a0 <=? i) (all_keys l) then Raises EBits
+  else Ok (Some (mkfp (batch_kind l) (fbits a0) (flevel a0) (all_keys l)
+                   (cbuild (all_keys l) (fun i => cast_value (batch_kind l) (wsum l (ones (length l)) i))) None)).
+Proof.
+  intro l. unfold batch_add, l. cbv iota. fold l. fold (batch_kind l).
+  rewrite (mk_count_cbuild (batch_kind l) (all_keys l) (wsum l (ones (length l))) (fbits a0) (flevel a0) None (ssorted_usort _)).
+  destruct (existsb _ _); reflexivity.
+Qed.
+
+Lemma batch_add_weighted_eq a0 l' ws : let l := a0 :: l' in length ws = length l ->
+  batch_add l (Some ws) =
+  if existsb (fun i => fbits a0 <=? i) (all_keys l) then Raises EBits
+  else Ok (Some (mkfp KFloat (fbits a0) (flevel a0) (all_keys l) (cbuild (all_keys l) (wsum l ws)) None)).
+Proof.
+  intros l E. unfold batch_add, l. cbv iota. fold l. rewrite E, Nat.eqb_refl. simpl negb. cbv iota.
+  rewrite (mk_count_cbuild KFloat (all_keys l) (wsum l ws) (fbits a0) (flevel a0) None (ssorted_usort _)).
+  destruct (existsb _ _); reflexivity.
+Qed.
+
+(* unweighted sum: every position holds the (cast of the) sum over the batch; keys = union of the members' keys *)
+Lemma batch_add_spec l r : batch_add l None = Ok (Some r) ->
+  (exists a0 l', l = a0 :: l' /\ fbits r = fbits a0 /\ flevel r = flevel a0) /\
+  fkind r = batch_kind l /\ fname r = None /\
+  fidx r = all_keys l /\ ckeys (fcnt r) = fidx r /\
+  (forall i, In i (fidx r) <-> exists a, In a l /\ In i (ckeys (counts_of a))) /\
+  (forall i, cget (fcnt r) i = cast_value (fkind r) (wsum l (ones (length l)) i)).
+Proof.
+  destruct l as [|a0 l']; [discriminate|]. rewrite batch_add_unweighted_eq. cbv zeta.
+  destruct (existsb _ _); [discriminate|]. intro H. inversion H; subst; clear H. simpl fkind; simpl fname; simpl fidx; simpl fcnt; simpl fbits; simpl flevel.
+  split; [exists a0, l'; auto|]. repeat split; try reflexivity.
+  - apply ckeys_cbuild.
+  - apply In_all_keys.
+  - apply In_all_keys.
+  - intro i. rewrite cget_cbuild. destruct (zmem i _) eqn:M; [reflexivity|].
+    apply zmem_false in M. rewrite (wsum_ones_absent _ _ M). destruct (batch_kind (a0 :: l')); reflexivity.
+Qed.
+
+(* integer-valued members (bit fingerprints, count fingerprints): the sum is not affected by the int() cast *)
+Definition int_counts (a : fp) : Prop := forall i, exists n, cget (counts_of a) i = inject_Z n.
+
+Lemma wsum_ones_int l i : (forall a, In a l -> int_counts a) -> exists n, wsum l (ones (length l)) i = inject_Z n.
+Proof.
+  induction l as [|a l IH]; simpl; intro H.
+  - exists 0. reflexivity.
+  - destruct IH as [m Hm]; [intros b Hb; apply H; auto|]. destruct (H a (or_introl eq_refl) i) as [n Hn].
+    exists (n + m). unfold ones in Hm. rewrite Hm, Hn. unfold Qplus, Qmult, inject_Z. simpl. rewrite !Z.mul_1_r. reflexivity.
+Qed.
+
+Lemma bit_int_counts a : fkind a = KBit -> int_counts a.
+Proof.
+  intros K i. unfold counts_of, bit_counts. rewrite K, cget_cbuild. destruct (zmem i (fidx a)); [exists 1 | exists 0]; reflexivity.
+Qed.
+
+Lemma batch_add_sum l r : batch_add l None = Ok (Some r) ->
+  (any_float l = true \/ forall a, In a l -> int_counts a) ->
+  forall i, cget (fcnt r) i == csum l i.
+Proof.
+  intros H C i. destruct (batch_add_spec l r H) as (_ & K & _ & _ & _ & _ & P). rewrite P, K.
+  destruct C as [C|C].
+  - unfold batch_kind. rewrite C. simpl. apply wsum_ones.
+  - destruct (wsum_ones_int l i C) as [n Hn]. rewrite <- (wsum_ones l i), Hn, cast_inject_Z. reflexivity.
+Qed.
+
+(* weighted sum *)
+Lemma batch_add_weighted_spec l ws r : batch_add l (Some ws) = Ok (Some r) ->
+  length ws = length l /\
+  (exists a0 l', l = a0 :: l' /\ fbits r = fbits a0 /\ flevel r = flevel a0) /\
+  fkind r = KFloat /\ fname r = None /\ fidx r = all_keys l /\ ckeys (fcnt r) = fidx r /\
+  (forall i, In i (fidx r) <-> exists a, In a l /\ In i (ckeys (counts_of a))) /\
+  (forall i, In i (fidx r) -> cget (fcnt r) i = wsum l ws i) /\
+  (forall i, cget (fcnt r) i == wsum l ws i).
+Proof.
+  destruct l as [|a0 l']; [discriminate|]. intro H.
+  assert (E : length ws = length (a0 :: l')).
+  { unfold batch_add in H. destruct (Nat.eqb (length ws) (length (a0 :: l'))) eqn:E; [|discriminate]. apply Nat.eqb_eq. exact E. }
+  rewrite (batch_add_weighted_eq a0 l' ws E) in H. cbv zeta in H.
+  destruct (existsb _ _); [discriminate|]. inversion H; subst; clear H.
+  simpl fkind; simpl fname; simpl fidx; simpl fcnt; simpl fbits; simpl flevel.
+  split; [exact E|]. split; [exists a0, l'; auto|]. repeat split; try reflexivity.
+  - apply ckeys_cbuild.
+  - apply In_all_keys.
+  - apply In_all_keys.
+  - intros i Hi. rewrite cget_cbuild, (proj2 (zmem_In _ _) Hi). reflexivity.
+  - intro i. rewrite cget_cbuild. destruct (zmem i _) eqn:M; [reflexivity|].
+    apply zmem_false in M. rewrite (wsum_absent _ ws _ M). reflexivity.
+Qed.
+
+(* weighted mean: the weights are normalised by their sum *)
+Lemma wsum_scale l ws s i : ~ s == 0 -> wsum l (map (fun x => (x / s)%Q) ws) i == (wsum l ws i / s)%Q.
+Proof.
+  intro Hs. revert ws. induction l as [|a l IH]; intros [|x ws]; simpl; try (unfold Qdiv; rewrite Qmult_0_l; reflexivity).
+  rewrite IH. field. exact Hs.
+Qed.
+
+Lemma batch_mean_weighted_spec l ws r : batch_mean l (Some ws) = Ok (Some r) ->
+  ~ qsum ws == 0 /\ length ws = length l /\ fkind r = KFloat /\ fidx r = all_keys l /\ ckeys (fcnt r) = fidx r /\
+  (exists a0 l', l = a0 :: l' /\ fbits r = fbits a0 /\ flevel r = flevel a0) /\
+  (forall i, cget (fcnt r) i == (wsum l ws i / qsum ws)%Q).
+Proof.
+  unfold batch_mean. destruct (Qeq_bool (qsum ws) 0) eqn:S; [discriminate|]. intro H.
+  apply Qeq_bool_neq in S.
+  destruct (batch_add_weighted_spec _ _ _ H) as (E & Hd & K & _ & I & Ck & _ & _ & P).
+  rewrite map_length in E. repeat split; try assumption.
+  intro i. rewrite P. apply wsum_scale. exact S.
+Qed.
+
+(* unweighted mean = sum / n *)
+Lemma batch_mean_spec l r : batch_mean l None = Ok (Some r) ->
+  l <> [] /\ fkind r = KFloat /\ ckeys (fcnt r) = all_keys l /\
+  (exists a0 l', l = a0 :: l' /\ fbits r = fbits a0 /\ flevel r = flevel a0) /\
+  (forall i, cget (fcnt r) i ==
+             (cast_value (batch_kind l) (wsum l (ones (length l)) i) / inject_Z (Z.of_nat (length l)))%Q).
+Proof.
+  unfold batch_mean. destruct l as [|a0 l']; [discriminate|]. set (l := a0 :: l').
+  destruct (batch_add l None) as [[s|]|e] eqn:A; cbn [rbind]; try discriminate.
+  destruct (fp_div s (inject_Z (Z.of_nat (length l)))) as [m|e] eqn:D; cbn [rbind]; [|discriminate].
+  intro H. inversion H; subst; clear H.
+  destruct (batch_add_spec l s A) as (Hd & K & _ & I & Ck & _ & P).
+  assert (Hc : is_count_like s = true). { unfold is_count_like. rewrite K. unfold batch_kind. destruct (any_float l); reflexivity. }
+  destruct (div_spec s _ r Hc D) as (_ & K' & B' & L' & _ & Ck' & _ & P').
+  split; [discriminate|]. split; [exact K'|]. split; [congruence|]. split.
+  - destruct Hd as (b0 & bl & E & Hb & Hl). exists b0, bl. split; [exact E|]. split; congruence.
+  - intro i. rewrite P', P, K. reflexivity.
+Qed.
+
+Lemma batch_mean_is_sum_over_n l r : batch_mean l None = Ok (Some r) ->
+  (any_float l = true \/ forall a, In a l -> int_counts a) ->
+  forall i, cget (fcnt r) i == (csum l i / inject_Z (Z.of_nat (length l)))%Q.
+Proof.
+  intros H C i. destruct (batch_mean_spec l r H) as (_ & _ & _ & _ & P). rewrite P.
+  destruct C as [C|C].
+  - unfold batch_kind. rewrite C. simpl. rewrite wsum_ones. reflexivity.
+  - destruct (wsum_ones_int l i C) as [n Hn]. rewrite <- (wsum_ones l i), Hn, cast_inject_Z. reflexivity.
+Qed.
+
+Lemma batch_empty : batch_add [] None = Ok None /\ batch_mean [] None = Raises EType.
+Proof. split; reflexivity. Qed.
+
+Lemma batch_weights_length_rejected l ws : l <> [] -> length ws <> length l -> batch_add l (Some ws) = Raises EValue.
+Proof.
+  intros Hl H. destruct l as [|a l]; [congruence|]. unfold batch_add. apply Nat.eqb_neq in H. rewrite H. reflexivity.
+Qed.
+
+Lemma batch_mean_zero_weights_rejected l ws : qsum ws == 0 -> batch_mean l (Some ws) = Raises EValue.
+Proof. intro H. unfold batch_mean. apply Qeq_bool_iff in H. rewrite H. reflexivity. Qed.
+
+(* ---- bundled forms used by Properties/C11.v ------------------------------------------------------ *)
+Lemma add_dispatch_bit a b : fkind a = KBit -> fp_add a b = fp_or a b /\ fp_sub a b = fp_bit_sub a b.
+Proof. intro H. split; [exact (fp_add_bit_is_or a b H) | exact (fp_sub_bit_is_diff a b H)]. Qed.
+
+Lemma reflected_forms_equal_plain a b :
+  fp_or b a = fp_or a b /\ fp_and b a = fp_and a b /\ fp_xor b a = fp_xor a b /\ fp_bit_add b a = fp_bit_add a b.
+Proof. repeat split; [apply or_comm | apply and_comm | apply xor_comm | apply bit_add_comm]. Qed.
+
+Lemma add_dispatch_count a b : is_count_like a = true ->
+  fp_add a b = count_binop Qplus a b /\ fp_sub a b = count_binop Qminus a b.
+Proof. intro H. split; [exact (fp_add_count a b H) | exact (fp_sub_count a b H)]. Qed.
+
+Lemma batch_rejections :
+  (batch_add [] None = Ok None /\ batch_mean [] None = Raises EType) /\
+  (forall l ws, l <> [] -> length ws <> length l -> batch_add l (Some ws) = Raises EValue) /\
+  (forall l ws, qsum ws == 0 -> batch_mean l (Some ws) = Raises EValue).
+Proof. split; [exact batch_empty|]. split; [exact batch_weights_length_rejected | exact batch_mean_zero_weights_rejected]. Qed.
